@@ -129,7 +129,7 @@ pub fn child_run(args: &[String]) -> i32 {
     };
     for (i, op) in case.ops.iter().enumerate() {
         shim::CURRENT_OP.store(i as u64, std::sync::atomic::Ordering::SeqCst);
-        let client = matches!(op, Op::Put { .. } | Op::Del { .. } | Op::Batch { .. });
+        let client = matches!(op, Op::Put { .. } | Op::Del { .. } | Op::Batch { .. } | Op::BigBatch { .. });
         if client {
             let _ = writeln!(acks, "B {i}");
         }
@@ -382,8 +382,9 @@ impl CrashEnum {
     fn history_strategy(&self, tier: Tier) -> proptest::strategy::BoxedStrategy<History> {
         let mut w = OpWeights::base();
         w.flush = 18;
-        w.compact = 26;
+        w.compact = 30;
         w.oversize = 0;
+        w.big_batch = 3;
         match self.focus {
             Focus::All => {
                 w.verify = 5;
